@@ -2,7 +2,7 @@
    the case runner of the correspondence check (cases come from harness/src/bin/smt.rs).
    The L2 functional tree and the L3 spec root are executed on the same histories as a
    labelled TEST of the theorems' statements (not a proof). *)
-From FV Require Import Base.Bytes Base.Sha256 Merkle.SparseSpec Merkle.SparseFun Merkle.SparseModel.
+From FV Require Import Base.Bytes Base.Sha256 Merkle.SparseSpec Merkle.SparseFun Merkle.SparseModel Merkle.SparseMsb.
 Open Scope N_scope.
 
 (* ---------------------------------------------------------------- the instance *)
@@ -25,18 +25,7 @@ Definition s_nodes_from_set kvs := nodes_from_set zero32 h_leaf h_node sha256 ge
 Definition s_incl_verify ps root key value := inclusion_verify bytes_eqb h_leaf h_node sha256 get_bit_at_index_from_msb ps root key value.
 Definition s_excl_verify ps leaf root key := exclusion_verify bytes_eqb zero32 h_leaf h_node get_bit_at_index_from_msb ps leaf root key.
 
-(* ---------------------------------------------------------------- bits <-> bytes (for L2/L3) *)
-Definition byte_bits (b : N) : list bool :=
-  [N.testbit b 7; N.testbit b 6; N.testbit b 5; N.testbit b 4; N.testbit b 3; N.testbit b 2; N.testbit b 1; N.testbit b 0].
-Definition bits_of_bytes (bs : bytes) : list bool := flat_map byte_bits bs.
-Definition b2n (b : bool) : N := if b then 1 else 0.
-Fixpoint bytes_of_bits (l : list bool) : bytes :=
-  match l with
-  | b7 :: b6 :: b5 :: b4 :: b3 :: b2 :: b1 :: b0 :: r =>
-      (128 * b2n b7 + 64 * b2n b6 + 32 * b2n b5 + 16 * b2n b4 + 8 * b2n b3 + 4 * b2n b2 + 2 * b2n b1 + b2n b0)
-        :: bytes_of_bits r
-  | _ => []
-  end.
+(* ---------------------------------------------------------------- bits <-> bytes (for L2/L3): Merkle/SparseMsb.v *)
 Definition spec_hleaf (k : key) (v : bytes) : bytes := h_leaf (bytes_of_bits k) v.
 Definition spec_root (m : @smap bytes) : bytes := smt_root zero32 spec_hleaf h_node 256 m.
 
